@@ -48,6 +48,7 @@ type dOp struct {
 	Count int      `json:"count"`
 	Match string   `json:"match"`
 	Forge string   `json:"forge"` // hex token to present instead of the real one
+	Batch []dOp    `json:"batch"` // pipebatch: the commands queued in one pipeline before Exec
 }
 
 type dScenario struct {
@@ -291,7 +292,7 @@ func (r *dRunner) runOp(op *dOp) map[string]interface{} {
 	key := string(keyb)
 	val, _ := hex.DecodeString(op.V)
 	var ki KeyInfo
-	if op.D != "" && op.Op != "destroy" && op.Op != "scan" && op.Op != "iterscan" && op.Op != "hstate" && op.Op != "mdel" && op.Op != "stats" && op.Op != "fragkeys" && op.Op != "cs" && op.Op != "compactrace" {
+	if op.D != "" && op.Op != "destroy" && op.Op != "scan" && op.Op != "iterscan" && op.Op != "hstate" && op.Op != "mdel" && op.Op != "stats" && op.Op != "fragkeys" && op.Op != "cs" && op.Op != "compactrace" && op.Op != "pipebatch" {
 		ki = r.cl.KeyInfo(op.D, key)
 		ob["part"] = ki.Part
 	}
@@ -306,6 +307,112 @@ func (r *dRunner) runOp(op *dOp) map[string]interface{} {
 		ob["n1"] = t1.Sub(processStart).Nanoseconds()
 	}()
 	switch op.Op {
+	case "pipebatch":
+		// several commands (put with options, get, getput, incr, decr, del, expire; different keys) queued in ONE pipeline of
+		// the cluster client, then Exec; one observation per command in "results"
+		cc, err := r.cl.ClusterClient()
+		if err != nil {
+			ob["r"] = olricErr(err)
+			return ob
+		}
+		dm, err := r.handle(fmt.Sprintf("%p/%s", cc, op.D), func() (olric.DMap, error) { return cc.NewDMap(op.D) })
+		if err != nil {
+			ob["r"] = olricErr(err)
+			return ob
+		}
+		p, err := dm.Pipeline()
+		if err != nil {
+			ob["r"] = olricErr(err)
+			return ob
+		}
+		defer p.Discard()
+		results := make([]map[string]interface{}, len(op.Batch))
+		fin := make([]func(map[string]interface{}), len(op.Batch))
+		for i := range op.Batch {
+			b := &op.Batch[i]
+			results[i] = map[string]interface{}{}
+			kb, _ := hex.DecodeString(b.K)
+			bkey := string(kb)
+			bval, _ := hex.DecodeString(b.V)
+			var qerr error
+			switch b.Op {
+			case "put":
+				f, err := p.Put(ctx, bkey, bval, putOptions(b)...)
+				qerr = err
+				if err == nil {
+					fin[i] = func(o map[string]interface{}) { o["r"] = olricErr(f.Result()) }
+				}
+			case "get":
+				f := p.Get(ctx, bkey)
+				fin[i] = func(o map[string]interface{}) {
+					g, err := f.Result()
+					o["r"] = olricErr(err)
+					if err == nil {
+						v, _ := g.Byte()
+						o["val"] = hex.EncodeToString(v)
+						o["ttl"] = g.TTL()
+					}
+				}
+			case "getput":
+				f, err := p.GetPut(ctx, bkey, bval)
+				qerr = err
+				if err == nil {
+					fin[i] = func(o map[string]interface{}) {
+						g, err := f.Result()
+						if err != nil && !errors.Is(err, redis.Nil) && !errors.Is(err, olric.ErrNilResponse) {
+							o["r"] = olricErr(err)
+							return
+						}
+						o["r"] = "ok"
+						o["old"] = nil
+						if g != nil {
+							if v, e := g.Byte(); e == nil {
+								o["old"] = hex.EncodeToString(v)
+							}
+						}
+					}
+				}
+			case "incr", "decr":
+				if b.Op == "incr" {
+					f, err := p.Incr(ctx, bkey, int(b.Delta))
+					qerr = err
+					if err == nil {
+						fin[i] = func(o map[string]interface{}) { n, err := f.Result(); o["r"] = olricErr(err); o["n"] = n }
+					}
+				} else {
+					f, err := p.Decr(ctx, bkey, int(b.Delta))
+					qerr = err
+					if err == nil {
+						fin[i] = func(o map[string]interface{}) { n, err := f.Result(); o["r"] = olricErr(err); o["n"] = n }
+					}
+				}
+			case "del":
+				f := p.Delete(ctx, bkey)
+				fin[i] = func(o map[string]interface{}) { n, err := f.Result(); o["r"] = olricErr(err); o["n"] = n }
+			case "expire":
+				f, err := p.Expire(ctx, bkey, time.Duration(b.Ms)*time.Millisecond)
+				qerr = err
+				if err == nil {
+					fin[i] = func(o map[string]interface{}) { o["r"] = olricErr(f.Result()) }
+				}
+			default:
+				qerr = fmt.Errorf("harness: unknown batch op %q", b.Op)
+			}
+			if qerr != nil {
+				results[i]["r"] = olricErr(qerr)
+			}
+		}
+		if err := p.Exec(ctx); err != nil {
+			ob["r"] = olricErr(err)
+			return ob
+		}
+		for i, f := range fin {
+			if f != nil {
+				f(results[i])
+			}
+		}
+		ob["r"] = "ok"
+		ob["results"] = results
 	case "sleep":
 		time.Sleep(time.Duration(op.Ms) * time.Millisecond)
 		ob["r"] = "ok"
